@@ -30,7 +30,7 @@ Lemma reset_at_top st : c_stack (st_cont st) = [] -> at_top (reset_state st).
 Proof. intros H. split; [reflexivity|exact H]. Qed.
 
 Lemma at_top_R st st' : at_top st -> R st st' -> at_top st'.
-Proof. intros [A B] [C D]. split; congruence. Qed.
+Proof. intros [A B] [C [D _]]. split; congruence. Qed.
 
 (** one top-level evaluation; a failed one is discarded (the session ends) *)
 Record toplevel : Type := mkTop { t_flags : passes_flags; t_expr : val; t_kw : list (string * val) }.
